@@ -27,7 +27,7 @@ type judge struct {
 
 func (j *judge) fail(class, detail string) {
 	cs := *j.cs
-	rep.FailLazy(class, cs.Ordinal, func() engine.Failure {
+	recordFailure(class, cs.Ordinal, func() engine.Failure {
 		return engine.Failure{Detail: fmt.Sprintf("chunk[%s]: %s", describe(&cs), detail), Case: cs}
 	})
 }
@@ -135,7 +135,13 @@ func (j *judge) network() {
 		rep.Count("diagnostic/wire-layout-parsed", 1)
 	}
 	data := append(append([]byte(nil), wire...), sentinel...)
-	for _, tr := range [][2]string{{"fresh", "bytes.Reader"}, {"fresh", "plain-reader"}, {"used", "bytes.Reader"}} {
+	variants := [][2]string{{"fresh", "bytes.Reader"}, {"fresh", "plain-reader"}, {"used", "bytes.Reader"}}
+	if cs.leanNet {
+		// the network form does not carry the status: for the 2nd.. status value the chunk is the
+		// very same input, only the plain fresh read is repeated
+		variants = variants[:1]
+	}
+	for _, tr := range variants {
 		{
 			target, reader := tr[0], tr[1]
 			dst := level.EmptyChunk(cs.Secs)
@@ -297,6 +303,14 @@ func (j *judge) compareNet(got *level.Chunk, tag string) {
 		}
 	}
 	j.compareBE(got.BlockEntity, "net", tag)
+	// the statement lists no light arrays for the network form (ReadFrom parses and drops them)
+	for s, ms := range m.secs {
+		if !bytes.Equal(got.Sections[s].SkyLight, ms.sky) || !bytes.Equal(got.Sections[s].BlockLight, ms.blk) {
+			rep.Unspec(1)
+			rep.Count("unspecified/net/light-arrays-not-carried-by-the-network-round-trip", 1)
+			break
+		}
+	}
 }
 
 func (j *judge) compareBE(got []level.BlockEntity, pre, tag string) {
@@ -355,9 +369,15 @@ var compNames = map[byte]string{1: "gzip", 2: "zlib", 3: "none"}
 func (j *judge) save() {
 	cs, b := j.cs, j.b
 	m := b.m
-	for _, ypos := range []int32{0, -4} {
+	for _, ypos := range []int32{-4, 0} {
 		yt := fmt.Sprintf("/ypos=%d", ypos)
 		sc := saveTemplate(ypos)
+		if ypos != -4 && cs.BE != "none" {
+			// ChunkToSave does not look at the block entities (checked below: sc.BlockEntities stays
+			// empty), so for the other block-entity configurations the save path gets the very same
+			// input: only the YPos=-4 direct conversion is repeated for them
+			continue
+		}
 		var err error
 		kind, frame, p := engine.Guard(func() { err = level.ChunkToSave(b.c, &sc) })
 		atomic.AddInt64(&convExec, 1)
